@@ -457,11 +457,11 @@ int main(int argc, char **argv) {
   const std::string root = a.out + "/ispd";
   mkdirs(root);
 
-  int nGen = a.quick() ? 260 : a.thorough() ? 4000 : 1500;
-  int nEight = a.quick() ? 60 : a.thorough() ? 800 : 300;
-  int nBig = a.search() ? 0 : a.quick() ? 40 : 400;
-  int nEdge = a.search() ? 0 : a.quick() ? 40 : 300;
-  int nMut = a.search() ? 0 : a.quick() ? 160 : 2500;
+  int nGen = a.quick() ? 260 : a.thorough() ? 12000 : 1500;
+  int nEight = a.quick() ? 60 : a.thorough() ? 2500 : 300;
+  int nBig = a.search() ? 0 : a.quick() ? 40 : 1200;
+  int nEdge = a.search() ? 0 : a.quick() ? 40 : 800;
+  int nMut = a.search() ? 0 : a.quick() ? 160 : 8000;
 
   std::vector<Case> cases;
   std::ofstream jobs(a.out + "/pyjobs.txt");
